@@ -258,6 +258,39 @@ class Registry:
     def contract_for(self, qualname):
         return self.contracts.get(qualname)
 
+    def contract_for_call(self, it, qualname, func, args, kwargs):
+        """The contract that applies to this call: the default one, unless a variant's parameter
+        kinds fit the actual arguments better (e.g. `none` vs `str` for an optional parameter)."""
+        default = self.contracts.get(qualname)
+        variants = [c for k, c in self.contracts.items() if k.startswith(qualname + "@")]
+        if default is None or not variants:
+            return default
+        from .ip_expr import Env
+
+        try:
+            bound = it.bind_args(func.node, list(args), dict(kwargs), Env(func.module, {}, func.closure, cls=func.owner))
+        except (RaiseSignal, Unsupported):
+            return default
+
+        def fits(c):
+            for pn, kind in c.params.items():
+                v = bound.get(pn)
+                d = it.deref(v) if v is not None else None
+                if kind == "none" and not isinstance(d, VNone):
+                    return False
+                if kind in ("str", "bytes") and not isinstance(d, VStr):
+                    return False
+                if kind.startswith("opaque:") and isinstance(d, (VStr, VNone)):
+                    return False
+            return True
+
+        if fits(default):
+            return default
+        for c in variants:
+            if fits(c):
+                return c
+        return default
+
     def field_kind(self, cls: ClassInfo, name):
         for c in cls.mro():
             if isinstance(c, ClassInfo):
